@@ -5,45 +5,9 @@ From H2V Require Import Base.Bytes Base.MachineInt Base.Result Gen.GenConsts Gen
      Impl.Huffman Impl.Hpack Spec.Rfc7541Huffman Spec.Rfc7541.
 Local Open Scope N_scope.
 
-(* ---- relating the model's state to the specification's ---- *)
-
-(* the model keeps hp.dynamic oldest first; the specification's table is newest first *)
-Definition abs (st : hpack_state) : dtable :=
-  mkDT (rev (map (fun f => (f_key f, f_value f)) (h_dynamic st))) (h_max st) (h_max_settings st).
-
-Definition triple_of (f : field) : hfield := (f_key f, f_value f, f_sens f).
-
-(* accept/reject, the ordered (name, value, sensitive) triples, the resulting table *)
-Definition proj (r : result (list field * hpack_state)) : option (list hfield * dtable) :=
-  match r with
-  | Ok (fs, st) => Some (map triple_of fs, abs st)
-  | _ => None
-  end.
-
-Definition proj_history (r : result (list (list field) * hpack_state)) : option (list (list hfield) * dtable) :=
-  match r with
-  | Ok (fss, st) => Some (map (map triple_of) fss, abs st)
-  | _ => None
-  end.
-
-Definition field_ok (f : field) : bool := bytes_ok (f_key f) && bytes_ok (f_value f) && negb (f_sens f).
-
-(* reachable decoder states: stored entries are byte strings and never carry the sensitive flag,
-   the table fits its maximum, which is within the SETTINGS limit, which is a uint32 *)
-Definition table_ok (st : hpack_state) : Prop :=
-  forallb field_ok (h_dynamic st) = true /\
-  table_size (dt_entries (abs st)) <= h_max st /\
-  h_max st <= h_max_settings st /\
-  h_max_settings st < 2 ^ 32.
-
-(* Sizes are uint32 in the code. A block shorter than 2^32 can still Huffman-expand one string to
-   more than 2^32 octets (5-bit codes: factor 8/5), and the size of a new entry (whose name may
-   come from a table entry) is added to the table size before the comparison with the maximum.
-   [block_small] keeps every such sum below 2^32: an entry created by the block is at most
-   max + 2 * |b| + 32 octets, the table before it at most max. Blocks of real connections (frame
-   payloads of at most 2^24-1 octets, a 4 kB or 64 kB table) are far inside. *)
-Definition block_small (st : hpack_state) (b : bytes) : Prop :=
-  2 * len b + 2 * h_max_settings st + 64 < 2 ^ 32.
+(* [abs], [triple_of], [proj], [proj_history], [field_ok], [table_ok], [block_small], [frames_of],
+   [nameref_ok], [repr_ok] live in Proofs/HpackDefs.v *)
+From H2V Require Export Proofs.HpackDefs.
 
 (* ---- (0) the tables the model is generated from are the RFC's ---- *)
 Definition C03_static_table_is_rfc : Prop := static_table = rfc_static_table.
@@ -70,31 +34,12 @@ Definition C03_history_refines_spec : Prop :=
 
 (* ---- (c) HEADERS + CONTINUATION: cutting a block anywhere changes nothing ---- *)
 
-(* the fragments of one block: the first travels in a HEADERS frame, the others in CONTINUATION
-   frames, the last one carries END_HEADERS *)
-Fixpoint frames_of (first : bool) (frags : list bytes) : list hdr_frame :=
-  match frags with
-  | [] => []
-  | [x] => [(x, true, negb first)]
-  | x :: rest => (x, false, negb first) :: frames_of false rest
-  end.
-
 Definition C03_split_invariance : Prop :=
   forall st frags, frags <> [] -> forallb bytes_ok frags = true -> table_ok st -> block_small st (concat frags) ->
     block_decode_frames st (frames_of true frags) = block_decode st (concat frags).
 
 (* ---- (d) the specification is self-consistent: decoding what any conforming encoder may emit
    (any index choice, any Huffman/raw choice, any string length) gives the meaning of what it chose ---- *)
-Definition nameref_ok (nr : nameref) : bool :=
-  match nr with NameIdx i => (0 <? i) && (i <? 2 ^ 32) | NameLit n => bytes_ok n end.
-
-Definition repr_ok (r : repr) : bool :=
-  match r with
-  | Indexed i => i <? 2 ^ 32
-  | Literal _ nr _ _ v => nameref_ok nr && bytes_ok v
-  | SizeUpdate n => n <? 2 ^ 32
-  end.
-
 Definition C03_spec_self_consistent : Prop :=
   forall t rs, forallb repr_ok rs = true ->
     (forall r, In r rs -> match r with
